@@ -14,6 +14,7 @@ grid are enumerated.  The grid length is whatever the real ``arange`` gives
 text / documentation in `_reference` and `numeric_reference` below.
 """
 import contextlib
+import copy
 import fractions
 import math
 
@@ -176,7 +177,9 @@ def _sym_arange(start, stop=None, step=1, *a, **kw):
         raise RuntimeError("arange step %r is not log(spacing=%r)" % (s, float(r)))
     A, B = term(start), term(stop)
     srat = symx.rat(s)
-    n = z3.Int("nq")
+    calls = ex._path.notes.setdefault("arange_calls", [0])
+    n = z3.Int("nq" if calls[0] == 0 else "nq_%d" % calls[0])   # one length per transform built
+    calls[0] += 1
     heavy = []
 
     def assume(c):
@@ -190,7 +193,7 @@ def _sym_arange(start, stop=None, step=1, *a, **kw):
     if len(logs) == 2:
         qa, qb = logs
         assume(z3.And(qa > 0, qb > 0))
-        ex.note("grid", (qa, qb, r))
+        ex._path.notes.setdefault("grid", []).append((qa, qb, r))
         assume(z3.And(*[(B - A <= k * srat) == (qb <= qa * _q(r ** k)) for k in range(0, nmax + 1)]))
     assume(n <= nmax)           # bound
     nval = ex.concretize_int(n)
@@ -199,7 +202,7 @@ def _sym_arange(start, stop=None, step=1, *a, **kw):
     items = [start + k * s for k in range(nval)]
     if len(logs) == 2:
         assume(z3.And(*[symx.uf("exp", it).t == qa * _q(r ** k) for k, it in enumerate(items)]))
-    ex.note("grid_facts", heavy)
+    ex._path.notes.setdefault("grid_facts", []).extend(heavy)
     return _sa(items)
 
 
@@ -243,6 +246,43 @@ class _Calc(DM.DataMixin):
     pass
 
 
+def _const_hash(self):
+    return 0
+
+
+def _snapshot(owners):
+    snap = []
+    for owner in owners:
+        for k, v in list(vars(owner).items()):
+            if isinstance(v, (dict, list, set)) and not k.startswith("__"):
+                try:
+                    snap.append((owner, k, copy.deepcopy(v)))
+                except Exception:
+                    pass
+    return snap
+
+
+# mutable module-/class-level state of the code under test as it is in a fresh
+# process (taken at import, before any transform exists)
+_OWNERS = (SES, SES.SesansTransform, DM.DataMixin)
+_SNAP = _snapshot(_OWNERS)
+
+
+def _fresh_state():
+    """Put the mutable class-/module-level containers of sasmodels.sesans back
+    to their state in a fresh process, so that every explored path and every
+    replay is a call sequence that starts in a fresh process (the property
+    quantifies over call sequences, not over what the harness ran before)."""
+    names = {(id(o), k) for o, k, _v in _SNAP}
+    for owner in _OWNERS:
+        for k, v in list(vars(owner).items()):
+            if isinstance(v, (dict, list, set)) and not k.startswith("__") \
+                    and (id(owner), k) not in names:
+                delattr(owner, k)
+    for owner, k, v in _SNAP:
+        setattr(owner, k, copy.deepcopy(v))
+
+
 @contextlib.contextmanager
 def _mode(symbolic):
     """Install (symbolic) or remove (concrete replay) the stubs.  The enlarged
@@ -250,9 +290,13 @@ def _mode(symbolic):
     in both modes."""
     SES.SesansTransform.__init__.__defaults__ = (float(_CFG["spacing"]),)
     DM.call_kernel = _fake_call_kernel
+    _fresh_state()
     if symbolic:
         SES.np = _SesansNp()
         SES.j0 = _sym_j0
+        # proxies as dict keys / set members (memo tables keyed by input values):
+        # a constant hash sends every lookup to ==, which forks symbolically
+        symx.Sym.__hash__ = _const_hash
     else:
         SES.np = np
         SES.j0 = _real_j0
@@ -261,6 +305,8 @@ def _mode(symbolic):
     finally:
         SES.np = np
         SES.j0 = _real_j0
+        symx.Sym.__hash__ = None
+        _fresh_state()
 
 
 def _chain(xi, lam, theta, bg, Ivectors):
@@ -541,14 +587,21 @@ def unit(cfg):
                 "numpy diff/insert/outer/dot/reshape (real implementation on object arrays)")
     _CFG["spacing"], _CFG["nmax"] = spacing, nmax
 
+    seq = mode == "seq"
     xi = symx.reals("xi", nxi)
-    if mode == "mono":
+    if mode in ("mono", "seq"):
         l0 = symx.real("lam")
         lam = [l0] * nxi
     else:
         lam = symx.reals("lam", nxi)
+    # seq: a transform for xi is built first, then (same process, same wavelength and
+    # acceptance) one for a grid with the same length and end points but independent
+    # interior points; every obligation below is stated on the SECOND one
+    xi2 = [xi[0]] + symx.reals("eta", nxi)[1:-1] + [xi[-1]] if seq else xi
     theta, bg, ca, cb = (symx.real(n) for n in ("theta", "bg", "a", "b"))
     A = [xi[0].t > 0] + [xi[i].t < xi[i + 1].t for i in range(nxi - 1)]
+    if seq:
+        A += [xi2[i].t < xi2[i + 1].t for i in range(nxi - 1)]
     A += [l.t > 0 for l in (lam if mode == "tof" else lam[:1])]
     A += [theta.t > 0, theta.t <= symx.rat(math.pi / 2)]
     # (the instantiated sin/asin facts constrain no fork; they are added at the obligations)
@@ -561,7 +614,9 @@ def unit(cfg):
 
     def fn():
         with _mode(True):
-            r = _chain(symx.oarray(xi), symx.oarray(lam), theta, bg, vectors)
+            if seq:
+                _chain(symx.oarray(xi), symx.oarray(lam), theta, bg, vectors)
+            r = _chain(symx.oarray(xi2), symx.oarray(lam), theta, bg, vectors)
         return {"q": [term(x) for x in r["q"]],
                 "outs": [[term(x) for x in o] for o in r["outs"]],
                 "kernel_q": None if r["kernel_q"] is None else [term(x) for x in r["kernel_q"]],
@@ -574,7 +629,7 @@ def unit(cfg):
     u.absorb(ex, paths)
     u.reachable(name, A)
 
-    xit = [x.t for x in xi]
+    xit = [x.t for x in xi2]
     lamt = [l.t for l in lam]
     S = symx.uf_decl("sin", 1)(theta.t)
     done = 0
@@ -586,6 +641,8 @@ def unit(cfg):
         heavy = {c.get_id() for c in p.notes.get("grid_facts", [])}
         light = [c for c in H if c.get_id() not in heavy]   # without the exp/log grid facts
         syms = {"xi": xit, "lam": lamt, "theta": theta.t, "bg": bg.t, "a": ca.t, "b": cb.t}
+        if seq:
+            syms["xi_first"] = [x.t for x in xi]
 
         def handler(oracle, nq=None, block=None):
             def h(m):
@@ -738,6 +795,8 @@ def _float_inputs(m, syms, nq):
     g = lambda t: float(symx.model_float(m, t))
     inp = {"xi": [g(t) for t in syms["xi"]], "lam": [g(t) for t in syms["lam"]],
            "theta": g(syms["theta"]), "bg": g(syms["bg"]), "a": g(syms["a"]), "b": g(syms["b"])}
+    if "xi_first" in syms:
+        inp["xi_first"] = [g(t) for t in syms["xi_first"]]
     n = nq or 0
     inp["I1"] = [g(z3.Real("I1_%d" % k)) for k in range(n)]
     inp["I2"] = [g(z3.Real("I2_%d" % k)) for k in range(n)]
@@ -754,10 +813,10 @@ def _validate(u, cfg, p, res, syms):
            [z3.And(z3.Real("I2_%d" % k) >= 0.5, z3.Real("I2_%d" % k) <= 2) for k in range(nq)] + \
            [syms["theta"] >= 0.01]
     if "grid" in p.notes:      # stay away from the rounding boundary of ceil()
-        qa, qb, rr = p.notes["grid"]
-        soft += [z3.Or(qb <= qa * _q(rr ** k) * _q(fractions.Fraction(97, 100)),
-                       qb >= qa * _q(rr ** k) * _q(fractions.Fraction(103, 100)))
-                 for k in range(0, cfg[3] + 1)]
+        for qa, qb, rr in p.notes["grid"]:
+            soft += [z3.Or(qb <= qa * _q(rr ** k) * _q(fractions.Fraction(97, 100)),
+                           qb >= qa * _q(rr ** k) * _q(fractions.Fraction(103, 100)))
+                     for k in range(0, cfg[3] + 1)]
     r, m, _s = u.solve(p.constraints() + soft, timeout_ms=20000)
     if r != "sat":
         r, m, _s = u.solve(p.constraints(), timeout_ms=20000)
@@ -775,13 +834,9 @@ def _validate(u, cfg, p, res, syms):
                % (len(real["q"]), nq))
         return
     env = {"theta": inp["theta"], "bg": inp["bg"], "a": inp["a"], "b": inp["b"]}
-    for i, v in enumerate(inp["xi"]):
-        env["xi%d" % i] = v
-    if cfg[1] == "mono":
-        env["lam"] = inp["lam"][0]
-    else:
-        for i, v in enumerate(inp["lam"]):
-            env["lam%d" % i] = v
+    for key in ("xi", "lam", "xi_first"):
+        for t, v in zip(syms.get(key, []), inp.get(key, [])):
+            env[str(t)] = v
     for k in range(nq):
         env["I1_%d" % k], env["I2_%d" % k] = inp["I1"][k], inp["I2"][k]
     funcs = {"j0": lambda x: float(_real_j0(x)),
@@ -812,8 +867,11 @@ def run_real(cfg, inp):
         I1, I2 = fit(inp.get("I1", [])), fit(inp.get("I2", []))
         return [I1, I2, inp["a"] * I1 + inp["b"] * I2]
 
-    with _mode(False):
+    with _mode(False):       # starts from the class/module state of a fresh process
         with np.errstate(all="ignore"):
+            if inp.get("xi_first"):
+                _chain(np.array(inp["xi_first"], dtype=float), lam, float(inp["theta"]),
+                       float(inp["bg"]), vectors)
             r = _chain(xi, lam, float(inp["theta"]), float(inp["bg"]), vectors)
     tr = r["tr"]
     I = vectors(len(r["q"]))
@@ -889,6 +947,17 @@ def numeric_violations(cfg, inp):
         s2 = max([abs(inp["a"] * x) + abs(inp["b"] * y) for x, y in zip(outs[0], outs[1])] + [1e-300])
         if not _close(outs[2], lin, s2, rtol=1e-8):
             bad.add("linear")
+    if inp.get("xi_first"):
+        # the same data set evaluated alone, from the state of a fresh process
+        alone = run_real(cfg, {k: v for k, v in inp.items() if k != "xi_first"})
+        sc = max([abs(x) for x in alone["outs"][0]] + [1e-300])
+        same = alone["q"] == q and _close(outs[0], alone["outs"][0], sc)
+        detail["value_alone_in_fresh_state"] = alone["outs"][0]
+        detail["q_calc_alone_in_fresh_state"] = alone["q"]
+        if not same:
+            detail["history_dependent"] = True
+            if "formula" in bad:
+                detail["class"] = "history-dependence"
     return bad, detail
 
 
@@ -901,6 +970,11 @@ def _replay_model(m, cfg, oracle, syms, nq, mask_block=None):
     what_extra = ""
     if oracle == "formula" and hit:
         key = "C19/formula/%s" % detail.get("class")
+        if detail.get("class") == "history-dependence":
+            what_extra = (" -- the transform built after one for xi=%r returns %s, the same data set "
+                          "alone in a fresh process returns %s"
+                          % (inp.get("xi_first"), detail.get("value"),
+                             detail.get("value_alone_in_fresh_state")))
         if str(detail.get("class")).startswith("acceptance-mask"):
             what_extra = (" -- only the acceptance mask differs: code masks %s, documented "
                           "q<=2pi/lambda*sin(theta_max) masks %s"
@@ -974,8 +1048,10 @@ def configs(chk):
     if chk.quick:
         return [(1, "mono", 4.0, 8), (1, "mono", 3.0, 8),
                 (2, "mono", 2.0, 8), (2, "mono", 1.5, 8), (2, "tof", 2.0, 8), (2, "tof", 1.5, 8),
-                (3, "mono", 2.0, 8), (3, "mono", 3.0, 8), (3, "tof", 2.0, 6), (3, "tof", 3.0, 6)]
+                (3, "mono", 2.0, 8), (3, "mono", 3.0, 8), (3, "tof", 2.0, 6), (3, "tof", 3.0, 6),
+                (3, "seq", 3.0, 5), (3, "seq", 2.0, 6)]
     out = [(1, "mono", 4.0, 12), (1, "mono", 3.0, 12), (1, "mono", 2.0, 12)]
+    out += [(3, "seq", 3.0, 6), (3, "seq", 2.0, 7), (4, "seq", 3.0, 6)]
     for n in (2, 3, 4):
         for mode in ("mono", "tof"):
             for sp in (2.0, 1.5, 3.0):
@@ -1000,11 +1076,20 @@ def run(chk):
         "(lambda of the point or max(lambda): either accepted); value(a I1 + b I2) = a value(I1) + "
         "b value(I2).  J0, exp, log, sin, asin are uninterpreted functions with instantiated true facts; "
         "a model of sin/asin that does not reproduce on the real code is refined by monotonicity lemmas "
-        "through the real function values (counterexample-guided) before a verdict is given.")
+        "through the real function values (counterexample-guided) before a verdict is given.  "
+        "'seq' units: in one path a transform for a grid xi is built and used first, then one for a grid "
+        "with the same length, end points, wavelength and acceptance but independent symbolic interior "
+        "points; all obligations are stated on the second, i.e. its value is a function of its own grid "
+        "only (no dependence on what was evaluated before).  Every path and every replay starts from "
+        "the class-/module-level state of a fresh process (mutable containers of sasmodels.sesans, "
+        "SesansTransform and DataMixin are restored from a snapshot taken at import); the replay runs "
+        "the real call sequence in one process and also the second data set alone.")
     cfgs = configs(chk)
     chk.bounds = {
         "spin-echo points": "1..%d" % max(c[0] for c in cfgs),
-        "wavelength": "one symbol for all points (mono) or one symbol per point (tof)",
+        "wavelength": "one symbol for all points (mono, seq) or one symbol per point (tof)",
+        "call history": "seq units: one earlier transform (same length/end points/wavelength/acceptance, "
+                        "different interior points); otherwise none",
         "q grid": "2..%d points (tof with >= %d points: <= %d): log spacing raised from 1.0003 to %s by "
                   "replacing the default of SesansTransform.__init__(log_spacing=...); inputs whose grid "
                   "would be longer are outside the claim" % (
@@ -1035,6 +1120,8 @@ def run(chk):
         "assignment is an if-then-else; arange(log qmin, log qmax, log r) -> start + k*step with the "
         "length ceil((stop-start)/step) forked over",
         "SesansTransform.__init__ default log_spacing -> 2, 1.5, 3 or 4 (bound on the grid length)",
+        "symx.Sym.__hash__ -> constant while the code runs symbolically, so that proxies can be dict keys / "
+        "set members (memo tables keyed by input values): lookups fall through to ==, which forks",
         "direct_model.call_kernel -> returns the symbolic vector I(q_calc) and records its arguments; "
         "model object -> stand-in with the real sphere ModelInfo and a recording make_kernel",
     ]
